@@ -48,6 +48,12 @@ var pureExternalPkgs = map[string]bool{
 	"github.com/x448/float16": true, "unsafe": true, "slices": true, "maps": true, "encoding/binary": true, "mime": true, "net/http": false,
 }
 
+// pureExternalFuncs: individual external functions treated as side-effect free (they only read their arguments).
+var pureExternalFuncs = map[string]bool{
+	"encoding/json.Marshal": true, "encoding/json.MarshalIndent": true, "encoding/json.Valid": true,
+	"sync/atomic.AddInt64": true, "sync/atomic.LoadInt64": true, "sync/atomic.AddInt32": true, "sync/atomic.LoadInt32": true,
+}
+
 func pkgOfKey(key string) string {
 	// key = pkgpath.Name or pkgpath.(*T).M or pkgpath.T.M
 	if i := strings.Index(key, ".("); i >= 0 {
@@ -112,7 +118,7 @@ func (g *Gen) callCommon(in *ssa.Call, common *ssa.CallCommon, args []*SV, st *S
 	g.nHavoc++
 	pk := pkgOfKey(key)
 	switch {
-	case key != "" && !inRepo(key) && pureExternalPkgs[pk]:
+	case key != "" && !inRepo(key) && (pureExternalPkgs[pk] || pureExternalFuncs[key]):
 		// external, treated as pure: results fresh, heap untouched
 		g.trusted["external "+key+" treated as side-effect free"] = true
 	case key != "" && !inRepo(key):
@@ -125,7 +131,23 @@ func (g *Gen) callCommon(in *ssa.Call, common *ssa.CallCommon, args []*SV, st *S
 		g.havocAll(st, key)
 		st.ghost = saved
 	default:
+		// in-repo callee without contract: heaps are havoc'd; a ghost variable survives if no
+		// function that may modify it is reachable from the callee (CHA call graph)
+		saved := map[string]string{}
+		if callee != nil {
+			for gh := range g.cs.Ghosts {
+				if !g.prog.ghostMayModify(g.cs, gh, callee) {
+					saved[gh] = g.ghostGet(st, gh)
+				}
+			}
+		}
 		g.havocAll(st, desc)
+		for k, v := range saved {
+			st.ghost[k] = v
+		}
+		if len(saved) > 0 {
+			g.trusted["ghost state preserved across calls from which no journal writer is reachable in the CHA call graph"] = true
+		}
 	}
 	if in != nil {
 		sv := g.defineHavoc(in, desc)
@@ -189,7 +211,7 @@ func (g *Gen) callWrites(in ssa.CallInstruction) (heaps []string, globals []*ssa
 	if g.isIntrinsic(key) {
 		return nil, nil, nil, false
 	}
-	if !inRepo(key) && pureExternalPkgs[pkgOfKey(key)] {
+	if !inRepo(key) && (pureExternalPkgs[pkgOfKey(key)] || pureExternalFuncs[key]) {
 		return nil, nil, nil, false
 	}
 	return nil, nil, nil, true
@@ -278,7 +300,17 @@ func (g *Gen) contractCall(in *ssa.Call, con *Contract, callee *ssa.Function, co
 	// havoc
 	mayAlloc := false
 	if con.ModAll {
+		// "modifies *" covers heaps and globals; ghost variables must be listed explicitly
+		saved := map[string]string{}
+		for gh := range g.cs.Ghosts {
+			if !containsStr(con.Modifies, gh) {
+				saved[gh] = g.ghostGet(st, gh)
+			}
+		}
 		g.havocAll(st, short)
+		for k, v := range saved {
+			st.ghost[k] = v
+		}
 		mayAlloc = true
 	} else {
 		for k := range g.modifiesKeys(con, cpkg) {
@@ -286,10 +318,10 @@ func (g *Gen) contractCall(in *ssa.Call, con *Contract, callee *ssa.Function, co
 			st.heaps[k] = g.freshConst("call."+k, g.heapSortsM[k])
 			mayAlloc = true
 		}
-		for _, m := range con.Modifies {
-			if gv, isGhost := g.cs.Ghosts[m]; isGhost {
-				st.ghost[m] = g.freshConst("callgh."+m, g.sortOf(g.resolveType(gv.Type, cpkg)))
-			}
+	}
+	for _, m := range con.Modifies {
+		if gv, isGhost := g.cs.Ghosts[m]; isGhost {
+			st.ghost[m] = g.freshConst("callgh."+m, g.sortOf(g.resolveType(gv.Type, cpkg)))
 		}
 	}
 	res := sig.Results()
@@ -487,7 +519,7 @@ func (g *Gen) appendCall(in *ssa.Call, common *ssa.CallCommon, args []*SV, st *S
 	// growth: fresh array
 	r := g.newRef(st, "append")
 	ncap := g.freshConst("app.cap", "Int")
-	g.addFact("(and (>= " + ncap + " " + newlen + ") (<= " + ncap + " 4611686018427387904))")
+	g.addFact("(and (>= " + ncap + " " + newlen + ") (<= " + ncap + " 140737488355328))")
 	arrS := "(select " + E + " (s-ref " + s.S + "))"
 	if cnt, ok := varargsLen(common.Args[1]); ok && cnt <= 8 && !tIsString {
 		// both cases write the new elements right after the old ones; on growth the (fresh) backing
@@ -569,6 +601,8 @@ var intrinsicNames = map[string]bool{
 	"sync.(*RWMutex).RLock": true, "sync.(*RWMutex).RUnlock": true,
 	"errors.New": true, "fmt.Errorf": true, "fmt.Sprintf": true, "time.Now": true, "time.Time.Unix": true, "time.Time.UnixNano": true,
 	"strconv.Itoa": true,
+	"strings.(*Builder).WriteByte": true, "strings.(*Builder).WriteString": true, "strings.(*Builder).Write": true,
+	"strings.(*Builder).String": true, "strings.(*Builder).Len": true, "strings.(*Builder).Grow": true, "strings.(*Builder).Reset": true,
 }
 
 func (g *Gen) isIntrinsic(key string) bool { return intrinsicNames[key] }
@@ -586,6 +620,41 @@ func (g *Gen) intrinsic(in *ssa.Call, key string, common *ssa.CallCommon, args [
 	case "sync.(*Mutex).Lock", "sync.(*Mutex).Unlock", "sync.(*RWMutex).Lock", "sync.(*RWMutex).Unlock", "sync.(*RWMutex).RLock", "sync.(*RWMutex).RUnlock":
 		g.lockOp(key, common, args, st, reach, pos)
 		return true
+	case "strings.(*Builder).WriteByte", "strings.(*Builder).WriteString", "strings.(*Builder).Write", "strings.(*Builder).String",
+		"strings.(*Builder).Len", "strings.(*Builder).Grow", "strings.(*Builder).Reset":
+		g.uses["str"] = true
+		recv := args[0]
+		g.nilCheck(recv, st, reach, pos, "strings.Builder receiver")
+		lv := g.asLV(recv, pos)
+		cur := g.loadLV(st, lv)
+		bt := common.Args[0].Type().Underlying().(*types.Pointer).Elem()
+		_ = bt
+		errNil := "(mk-iface 0 0)"
+		switch key {
+		case "strings.(*Builder).WriteByte":
+			g.storeLV(st, lv, "(str.++ "+cur+" (str.from_code "+args[1].S+"))")
+			if in != nil {
+				g.vals[in] = &SV{S: errNil, T: in.Type()}
+			}
+		case "strings.(*Builder).WriteString":
+			g.storeLV(st, lv, "(str.++ "+cur+" "+args[1].S+")")
+			if in != nil {
+				g.vals[in] = &SV{T: in.Type(), Tup: []*SV{{S: "(str.len " + args[1].S + ")", T: types.Typ[types.Int]}, {S: errNil, T: errorType}}}
+			}
+		case "strings.(*Builder).Write":
+			g.storeLV(st, lv, "(str.++ "+cur+" "+g.bytesToString(args[1].S, st)+")")
+			if in != nil {
+				g.vals[in] = &SV{T: in.Type(), Tup: []*SV{{S: "(s-len " + args[1].S + ")", T: types.Typ[types.Int]}, {S: errNil, T: errorType}}}
+			}
+		case "strings.(*Builder).String":
+			def(cur)
+		case "strings.(*Builder).Len":
+			def("(str.len " + cur + ")")
+		case "strings.(*Builder).Grow":
+			g.safeObl("safe-panic", "(>= "+args[1].S+" 0)", reach, pos, "strings.Builder.Grow with negative count panics")
+		case "strings.(*Builder).Reset":
+			g.storeLV(st, lv, `""`)
+		}
 	case "strings.HasPrefix":
 		g.uses["str"] = true
 		def("(str.prefixof " + args[1].S + " " + args[0].S + ")")
@@ -839,6 +908,10 @@ func (c *Ctx) mathCall(name string, args []*SV) *SV {
 		c.mathAxiom("f32bits", "(forall ((b Int)) (! (=> (and (<= 0 b) (< b 4294967296)) (= (m.f32bits (m.f32frombits b)) b)) :pattern ((m.f32frombits b))))")
 		c.mathAxiom("f32bits-range", fmt.Sprintf("(forall ((x %s)) (! (and (<= 0 (m.f32bits x)) (< (m.f32bits x) 4294967296)) :pattern ((m.f32bits x))))", c.sortOf(types.Typ[types.Float32])))
 		c.trusted["math.Float32bits/Float32frombits modelled as an uninterpreted bijection between float32 bit patterns and [0,2^32)"] = true
+		if t := "(m.f32bits " + a(0) + ")"; groundTerm(t) && !c.declared["inst."+t] {
+			c.declared["inst."+t] = true
+			c.axioms = append(c.axioms, "(and (<= 0 "+t+") (< "+t+" 4294967296))")
+		}
 		return &SV{S: "(m.f32bits " + a(0) + ")", T: types.Typ[types.Uint32]}
 	case "Float32frombits":
 		c.declareFun("m.f32bits", []string{c.sortOf(types.Typ[types.Float32])}, "Int")
@@ -847,6 +920,10 @@ func (c *Ctx) mathCall(name string, args []*SV) *SV {
 		c.mathAxiom("f32bits", "(forall ((b Int)) (! (=> (and (<= 0 b) (< b 4294967296)) (= (m.f32bits (m.f32frombits b)) b)) :pattern ((m.f32frombits b))))")
 		c.mathAxiom("f32bits-range", fmt.Sprintf("(forall ((x %s)) (! (and (<= 0 (m.f32bits x)) (< (m.f32bits x) 4294967296)) :pattern ((m.f32bits x))))", c.sortOf(types.Typ[types.Float32])))
 		c.trusted["math.Float32bits/Float32frombits modelled as an uninterpreted bijection between float32 bit patterns and [0,2^32)"] = true
+		if t := "(m.f32frombits " + a(0) + ")"; groundTerm(t) && !c.declared["inst."+t] {
+			c.declared["inst."+t] = true
+			c.axioms = append(c.axioms, "(=> (and (<= 0 "+a(0)+") (< "+a(0)+" 4294967296)) (= (m.f32bits "+t+") "+a(0)+"))")
+		}
 		return &SV{S: "(m.f32frombits " + a(0) + ")", T: types.Typ[types.Float32]}
 	}
 	return nil
@@ -869,4 +946,43 @@ func (g *Gen) lockOp(key string, common *ssa.CallCommon, args []*SV, st *State, 
 	if g.lockHook != nil {
 		g.lockHook(key, common, args, st, reach, pos)
 	}
+}
+
+// bytesToString: the string with the bytes of slice term s. Slices whose length is a known
+// small constant are expanded; otherwise an uninterpreted function of the backing array and the
+// window, with its length and characters given by axioms.
+func (g *Gen) bytesToString(s string, st *State) string {
+	g.uses["str"] = true
+	k, hs := g.elemHeap("Int")
+	g.heapSortsTouch(k, hs)
+	E := g.heapGet(st, k, hs)
+	if n, ok := g.constLen[s]; ok && n <= 16 {
+		if n == 0 {
+			return `""`
+		}
+		parts := ""
+		for j := int64(0); j < n; j++ {
+			g.seeIndex(fmt.Sprint(j))
+			parts += fmt.Sprintf(" (str.from_code (select (select %s (s-ref %s)) (+ (s-off %s) %d)))", E, s, s, j)
+		}
+		if n == 1 {
+			return strings.TrimSpace(parts)
+		}
+		return "(str.++" + parts + ")"
+	}
+	g.Ctx.declBytestr()
+	return fmt.Sprintf("(ext.bytestr (select %s (s-ref %s)) (s-off %s) (s-len %s))", E, s, s, s)
+}
+
+func (c *Ctx) declBytestr() {
+	if c.declared["ext.bytestr"] {
+		return
+	}
+	c.uses["str"] = true
+	c.uses["quant"] = true
+	c.declareFun("ext.bytestr", []string{"(Array Int Int)", "Int", "Int"}, "String")
+	c.axioms = append(c.axioms,
+		"(forall ((a (Array Int Int)) (o Int) (n Int)) (! (=> (>= n 0) (= (str.len (ext.bytestr a o n)) n)) :pattern ((ext.bytestr a o n))))",
+		"(forall ((a (Array Int Int)) (o Int) (n Int) (i Int)) (! (=> (and (<= 0 i) (< i n) (<= 0 (select a (+ o i))) (<= (select a (+ o i)) 255)) (= (str.to_code (str.at (ext.bytestr a o n) i)) (select a (+ o i)))) :pattern ((str.at (ext.bytestr a o n) i))))",
+		"(forall ((a (Array Int Int)) (o Int)) (! (= (ext.bytestr a o 0) \"\") :pattern ((ext.bytestr a o 0))))")
 }
